@@ -30,8 +30,9 @@ def cdsC : List ℚ := [2,1,2,2,1,2]
 theorem netC : NetOk 2 ptsC := by
   intro pt hpt; simp [ptsC] at hpt; rcases hpt with h | h | h | h | h | h | h <;> simp [h]
 
-theorem okIC : InterpCurveOk 3 ptsC cdsC := ⟨by omega, by decide, by decide, by decide +kernel⟩
-theorem okAC : ApproxCurveOk 2 ptsC cdsC 4 := ⟨by omega, by omega, by omega, by decide, by decide, by decide +kernel⟩
+theorem okIC : InterpCurveOk 3 ptsC cdsC := ⟨by omega, by decide, by decide, by decide +kernel, 2, le_refl _, netC⟩
+theorem okAC : ApproxCurveOk 2 ptsC cdsC 4 :=
+  ⟨by omega, by omega, by omega, by decide, by decide, by decide +kernel, 2, le_refl _, netC⟩
 
 /-- a 3 × 4 grid of data points for the surface interpolation -/
 def ptsI : List (List ℚ) :=
@@ -39,8 +40,13 @@ def ptsI : List (List ℚ) :=
 def cuI : List (List ℚ) := [[1,1],[1,2],[2,1],[1,3]]
 def cvI : List (List ℚ) := [[1,1,2],[1,2,1],[2,1,1]]
 
+theorem netI : NetOk 3 ptsI := by
+  intro pt hpt
+  simp [ptsI] at hpt
+  rcases hpt with h | h | h | h | h | h | h | h | h | h | h | h <;> simp [h]
+
 theorem okIS : InterpSurfOk 2 2 3 4 ptsI cuI cvI :=
-  ⟨by omega, by omega, by omega, by omega, by decide, by decide +kernel, by decide +kernel⟩
+  ⟨by omega, by omega, by omega, by omega, by decide, by decide +kernel, by decide +kernel, 3, by omega, netI⟩
 
 /-- a 4 × 5 grid of data points for the surface approximation (degrees 2 and 1, 3 × 4 control points) -/
 def ptsA : List (List ℚ) :=
@@ -56,7 +62,7 @@ theorem netA : NetOk 3 ptsA := by
 
 theorem okA : ApproxSurfOk 2 1 4 5 ptsA cuA cvA 3 4 :=
   ⟨by omega, by omega, by omega, by omega, by omega, by omega, by omega, by omega, by decide,
-   by decide +kernel, by decide +kernel⟩
+   by decide +kernel, by decide +kernel, 3, by omega, netA⟩
 
 theorem resA : ∃ r, approximateSurface 2 1 4 5 ptsA cuA cvA 3 4 flQ = some r := by
   have h : (approximateSurface 2 1 4 5 ptsA cuA cvA 3 4 flQ).isSome = true := by decide +kernel
@@ -70,12 +76,7 @@ theorem resAC : ∃ r, approximateCurve 2 ptsC cdsC 4 flQ = some r := by
 def dbl13 : ℚ := 6004799503160661 / 18014398509481984
 def dbl15 : ℚ := 3602879701896397 / 18014398509481984
 
-theorem okIC5 : InterpCurveOk 5 ptsC cdsC := ⟨by omega, by decide, by decide, by decide +kernel⟩
-
-theorem netI : NetOk 3 ptsI := by
-  intro pt hpt
-  simp [ptsI] at hpt
-  rcases hpt with h | h | h | h | h | h | h | h | h | h | h | h <;> simp [h]
+theorem okIC5 : InterpCurveOk 5 ptsC cdsC := ⟨by omega, by decide, by decide, by decide +kernel, 2, le_refl _, netC⟩
 
 theorem resIC13 : ∃ r, interpolateCurve 3 ptsC cdsC dbl13 = some r := by
   have h : (interpolateCurve 3 ptsC cdsC dbl13).isSome = true := by decide +kernel
